@@ -51,7 +51,8 @@ Record definition := {
 
 Record dirdef := {
   dd_name : string; dd_desc : string; dd_locs : list string; dd_args : list argdef;
-  dd_builtin : bool               (* Position.Src.BuiltIn *) }.
+  dd_builtin : bool;              (* Position.Src.BuiltIn *)
+  dd_repeatable : bool            (* IsRepeatable *) }.
 
 (* one service's schema: Types and Directives maps (keys are the definitions' names) *)
 Record schema := { s_types : list definition; s_dirs : list dirdef }.
